@@ -480,6 +480,25 @@ def _n9(ctx, core, R="C11-N9"):
     ctx.floor(R, 8)
 
 
+def _n10(ctx, fm):
+    R = "C11-N10"
+    ctx.doc(R, "sign flips of 'max' columns do not use a ufunc whose out= argument is the same strided column view as its input (witnessed wrong values for strided float32 views with the numpy of this environment: findings/witness/w_c11b.py)")
+    n = 0
+    for fi in (fm,):
+        for c in fi.calls():
+            o = kwarg(c, "out")
+            if o is None or not isinstance(c.func, ast.Attribute) or norm(c.func.value) not in ("np", "numpy"):
+                continue
+            n += 1
+            aliased = any(norm(a) == norm(o) for a in c.args)
+            strided = isinstance(o, ast.Subscript) and isinstance(o.slice, ast.Tuple) and len(o.slice.elts) >= 2 and not isinstance(o.slice.elts[-1], ast.Slice)
+            ctx.check(not (aliased and strided), R, fi, c, f"`{norm(c)}` negates a strided column view in place through out=: with the pinned numpy this writes the negation of other elements for float32 data, "
+                      "so every column with goal 'max' is compared on garbage (dominated rows kept, non-dominated rows dropped)", "no aliased strided out=")
+    flips = [st for st in fm.stmts() for t, v, aug in assigned_targets(st) if isinstance(t, ast.Subscript) and norm(t.value) == "eff_data" and (
+        (aug and isinstance(st.op, ast.Mult)) or (isinstance(v, ast.UnaryOp) and isinstance(v.op, ast.USub)) or (isinstance(v, ast.BinOp) and isinstance(v.op, ast.Mult)))]
+    ctx.check(n + len(flips) >= 1, R, fm, fm.node, "no sign flip for 'max' columns found", f"sign flips found: {n + len(flips)}", nontrivial=False)
+
+
 def check(ctx):
     core = ctx.func(FP, "_sfs_bnl_core", "C11")
     fm = ctx.func(FP, "fast_pareto_mask", "C11")
@@ -492,6 +511,7 @@ def check(ctx):
     _n6(ctx, fm, nm)
     _n8(ctx, fm)
     _n9(ctx, core)
+    _n10(ctx, fm)
     decs = " ".join(core.decorators())
     if "fastmath=True" in decs:
         ctx.observe("C11-N7 (not armed): _sfs_bnl_core is compiled with fastmath=True (LLVM ninf/nnan assumptions) although its contract includes +inf; no failing input demonstrated")
